@@ -26,9 +26,9 @@ def inputs_and_steps(trace):
     """returns (inputs: ordered dict lhs->value of world/ghost/harness globals before harness(), steps after)"""
     inputs, steps, in_h = {}, [], False
     for st in trace:
-        if st.get("hidden"):
-            continue
         t = st.get("stepType")
+        if st.get("hidden") and not (t == "assignment" and not in_h):
+            continue
         loc = st.get("sourceLocation", {})
         if t == "function-call" and st.get("function", {}).get("displayName") == "harness":
             in_h = True
